@@ -70,7 +70,11 @@ def run_case(case, rec):
 
     kind, d, n_out = case["kind"], case["d"], case["n_out"]
     rng = np.random.default_rng([case["seed"], 9])
-    jit_eval = jax.jit(lambda l, p, b: l.evaluate(p, b))
+    if case["seed"] % 6 == 0:
+        rec.count("eager_evaluations")
+        jit_eval = lambda l, p, b: l.evaluate(p, b)
+    else:
+        jit_eval = jax.jit(lambda l, p, b: l.evaluate(p, b))
     w = case["w"]
 
     def finish(term, got, expected, sig, nontrivial_key, **wit):
